@@ -22,7 +22,9 @@ EXPLANATION = (
     "reader walks the bytes from the last to the first and the bits of a byte from the mask 0x80 downwards by one - the "
     "same order, most significant first, in which the bits-to-byte routine of the writers fills a byte; (R5) the layout "
     "constants of the double format: the bias the decoder subtracts and the bias the encoder adds are both 1023, the "
-    "exponent width both sides use is 11, the significand width 52, and 1 + 11 + 52 is the 64 bits the byte table covers.")
+    "exponent width both sides use is 11, the significand width 52, and 1 + 11 + 52 is the 64 bits the byte table covers; "
+    "(R6) PEEK and POKE on an INTEGER take byte `address` - the parameter itself - of the array the word encoder makes of "
+    "the payload, and POKE stores the word decoder's result of the changed bytes back.")
 NOT_DECIDED = [
     "that the encoder's halving / doubling and the decoder's summing of powers of two agree for every finite double "
     "(subnormals, rounding of the 53rd bit): arithmetic over bit patterns, solver territory",
@@ -413,6 +415,74 @@ def r5_layout_constants(ctx, widths, rule="C19.R5"):
     ctx.require(rule, 5)
 
 
+def r6_peek_poke_use_the_word_codec(ctx, rule="C19.R6"):
+    """PEEK reads, and POKE rewrites, byte `address` of the two bytes i32_to_bytes makes of the INTEGER payload: the
+    index handed to get / get_mut is the address parameter itself, the bytes come from the encoder applied to the
+    payload, and POKE stores the decoder's result of those same bytes back into the payload."""
+    prog = ctx.prog
+    for trait, name, getter in (("PeekByte", "peek_byte", "get"), ("PokeByte", "poke_byte", "get_mut")):
+        fs = [f for f in prog.fns.values() if f.name == name and f.impl is not None and f.crate == "rusty_basic"
+              and trait in (f.impl.get("trait_ref") or "") and (f.impl.get("self_ty") or "").endswith("Variant")]
+        if len(fs) != 1:
+            raise CheckError("%s: %d implementations of %s for Variant" % (rule, len(fs), trait))
+        f = fs[0]
+        body = f.body
+        pv = mir.Prov(body)
+        enc = [(b, t) for b, t in body.calls() if mir.callee_path(t).endswith("::i32_to_bytes")]
+        # locals that hold a reference to the payload of the VInteger arm (`Self::VInteger(i)` on a &mut self)
+        payload_refs = {st["p"][0] for blk in body.blocks for st in blk["s"]
+                        if st["k"] == "assign" and not st["p"][1] and st["r"]["k"] == "ref"
+                        and any(isinstance(e, dict) and e.get("d") == "VInteger" for e in st["r"]["p"][1])}
+
+        def is_payload(op):
+            if "as VInteger" in str(pv.of_operand(op)):
+                return True
+            pl_ = mir.op_place(op)
+            for _ in range(3):
+                if pl_ is None:
+                    return False
+                if pl_[1] == ["*"] and pl_[0] in payload_refs:
+                    return True
+                if pl_[1]:
+                    return False
+                d_ = body.single_def(pl_[0])
+                if not d_ or d_[1] == "T" or d_[2]["r"]["k"] != "use":
+                    return False
+                pl_ = mir.op_place(d_[2]["r"]["o"])
+            return False
+        ok_enc = len(enc) == 1 and is_payload(enc[0][1]["args"][0])
+        ctx.decide(ok_enc, rule, "%s:%s:bytes-of-the-payload" % (rule, name), f.loc, "i32_to_bytes(payload)",
+                   "%s does not take the bytes of the INTEGER payload through i32_to_bytes" % name)
+        gets = [(b, t) for b, t in body.calls() if re.search(r"(slice|array)[^:]*::<impl \[T\]>::%s$|\[T\]>::%s$|::%s$" % (getter, getter, getter), mir.callee_path(t))
+                and len(t["args"]) == 2 and "i32_to_bytes" in str(pv.of_operand(t["args"][0]))]
+        key = "%s:%s:index-is-the-address" % (rule, name)
+        if len(gets) != 1:
+            ctx.unknown(rule, key, f.loc, "%s does not pick the byte with %s on the encoder's array (%d candidates)" % (name, getter, len(gets)))
+        else:
+            o = mir.strip_all(pv.of_operand(gets[0][1]["args"][1]))
+            ctx.decide(o == ("param", 1), rule, key, f.loc, "%s(address)" % getter,
+                       "%s picks the byte at %s, not at the address it was given: low and high byte are exchanged or shifted"
+                       % (name, mir.show_origin(pv.of_operand(gets[0][1]["args"][1]))[:60]))
+        if name == "poke_byte":
+            dec = [(b, t) for b, t in body.calls() if mir.callee_path(t).endswith("::bytes_to_i32")]
+            wb = False
+            for b, t in dec:
+                d = t.get("d")
+                # the destination (or a copy of it) is stored into the payload
+                for blk in body.blocks:
+                    for st in blk["s"]:
+                        if st["k"] == "assign" and ("VInteger" in str(st["p"]) or (st["p"][1] == ["*"] and st["p"][0] in payload_refs)) \
+                                and st["r"]["k"] == "use":
+                            src = mir.op_place(st["r"]["o"])
+                            if src is not None and d is not None and src[0] == d[0]:
+                                wb = True
+                if d is not None and "VInteger" in str(d):
+                    wb = True
+            ctx.decide(wb, rule, "%s:%s:written-back-through-the-decoder" % (rule, name), f.loc, "payload = bytes_to_i32(bytes)",
+                       "poke_byte does not store bytes_to_i32 of the changed bytes back into the INTEGER payload")
+    ctx.require(rule, 4, max_unknown=2)
+
+
 def run(ctx):
     common.install(ctx)
     r1_elementwise(ctx)
@@ -420,3 +490,4 @@ def run(ctx):
     makers, widths = r3_writer_tables(ctx)
     r4_reader_walk(ctx, makers)
     r5_layout_constants(ctx, widths)
+    r6_peek_poke_use_the_word_codec(ctx)
